@@ -26,6 +26,7 @@ type vHTTPFault struct {
 }
 
 var vFault *vHTTPFault
+var vFault2 *vHTTPFault // a second, independent fault (another service failing in the same step)
 var vMutHookFn func(url string, call int, resps []map[string]interface{})
 var vHTTPCalls map[string]int
 
@@ -69,6 +70,11 @@ func verifDo(req *http.Request) (*http.Response, error) {
 	if vMutHookFn != nil {
 		vMutHookFn(url, call, resps)
 	}
+	if f := vFault2; f != nil && f.url == url && f.call == call && f.errs != nil {
+		resps[0] = map[string]interface{}{"data": nil, "errors": f.errs}
+		b, _ := json.Marshal(resps)
+		return &http.Response{StatusCode: 200, Body: &vBody{b}}, nil
+	}
 	if f := vFault; f != nil && f.url == url && f.call == call {
 		switch {
 		case f.terr:
@@ -97,7 +103,7 @@ func vNewHTTPFed(w *vWorld, maxBatch int, opts []GatewayOption, sdls ...string) 
 	}))
 	f := vNewFedOpts(w, opts, sdls...)
 	vHTTPFed = f
-	vFault = nil
+	vFault, vFault2 = nil, nil
 	vHTTPCalls = map[string]int{}
 	return f
 }
@@ -137,6 +143,10 @@ func VerifInvalidOperations() {
 	vK = 1
 	f := vNewHTTPFed(vReadmeWorld(1), 3000, nil, vSA, vSB)
 	batch := verifChoice("batch", 2) == 1
+	pos := 0 // position of the invalid operation in the batch
+	if batch {
+		pos = verifChoice("invalidpos", 2)
+	}
 	m := map[string]interface{}{"query": op.q}
 	if op.opName != "" {
 		m["operationName"] = op.opName
@@ -148,7 +158,11 @@ func VerifInvalidOperations() {
 		f.vPost(`{ me { name } }`, nil, "")
 		aloneLog = f.log
 		f.log = nil
-		body, _ = json.Marshal([]interface{}{m, map[string]interface{}{"query": `{ me { name } }`}})
+		if pos == 0 {
+			body, _ = json.Marshal([]interface{}{m, map[string]interface{}{"query": `{ me { name } }`}})
+		} else {
+			body, _ = json.Marshal([]interface{}{map[string]interface{}{"query": `{ me { name } }`}, m})
+		}
 	} else {
 		body, _ = json.Marshal(m)
 	}
@@ -158,9 +172,13 @@ func VerifInvalidOperations() {
 	if batch {
 		var arr []map[string]interface{}
 		verifAssert(json.Unmarshal(rec.body, &arr) == nil && len(arr) == 2, "a batch is answered with an array")
-		res = arr[0]
-		d1, _ := arr[1]["data"].(map[string]interface{})
-		verifAssert(d1 != nil && arr[1]["errors"] == nil, "the valid operation in the same batch is served")
+		verifAssert(arr[0] != nil && arr[1] != nil, "every operation of the batch is answered at its own position")
+		if arr[0] == nil || arr[1] == nil {
+			return
+		}
+		res = arr[pos]
+		d1, _ := arr[1-pos]["data"].(map[string]interface{})
+		verifAssert(d1 != nil && arr[1-pos]["errors"] == nil, "the valid operation in the same batch is served")
 	} else {
 		verifAssert(json.Unmarshal(rec.body, &res) == nil, "the response is one JSON object")
 	}
@@ -289,6 +307,50 @@ func vEqJSON(a, b interface{}) bool {
 		return true
 	}
 	return a == b
+}
+
+// VerifTwoServicesFail: two services answer their sub-requests of the same plan level with errors;
+// every error reaches the client, also when both carry the same message.
+func VerifTwoServicesFail() {
+	vK = 1
+	vMinLen = 1
+	f := vNewHTTPFed(vReadmeWorld(1), 3000, nil, vSA, vSB)
+	level := verifChoice("level", 2) // 0: two root steps; 1: two child steps of one root step
+	q := `{ getHumans { name } getAnimals { name } }`
+	urls := []string{"svc0", "svc1"}
+	if level == 1 {
+		f = vNewHTTPFed(vReadmeWorld(1), 3000, nil, vSA, vSB, vSC)
+		q = `{ me { phone email } }`
+		urls = []string{"svc1", "svc2"}
+	}
+	msgs := []string{"failed: " + verifAtom("msgA", 2), "failed: " + verifAtom("msgB", 2)}
+	paths := [][]interface{}{{"x", "a"}, {"x", "b"}}
+	exts := []string{"EA", "EB"}
+	mk := func(i int) []map[string]interface{} {
+		return []map[string]interface{}{{"message": msgs[i], "path": paths[i], "extensions": map[string]interface{}{"code": exts[i]}}}
+	}
+	vFault = &vHTTPFault{url: urls[0], call: 0, errs: mk(0)}
+	vFault2 = &vHTTPFault{url: urls[1], call: 0, errs: mk(1)}
+	_, out := f.vPost(q, nil, "")
+	got, _ := out["errors"].([]interface{})
+	for i := 0; i < 2; i++ {
+		found := false
+		for _, ge := range got {
+			gm, _ := ge.(map[string]interface{})
+			if gm == nil || gm["message"] != msgs[i] {
+				continue
+			}
+			ext, _ := gm["extensions"].(map[string]interface{})
+			if ext != nil && ext["code"] == exts[i] && vEqJSON(vJSONNorm10(gm["path"]), vJSONNorm10(paths[i])) {
+				found = true
+			}
+		}
+		verifAssert(found, "the error of every failing service reaches the client with its message, extensions and path")
+	}
+	if msgs[0] == msgs[1] {
+		verifReach("same message from two services")
+	}
+	verifReach("two services failed")
 }
 
 func vJSONNorm10(v interface{}) interface{} {
